@@ -360,7 +360,7 @@ Definition ex (l : list seg) : list Z := concat (map ex1 l).
           (or with merkledag's "failed to fetch all nodes" that it turns into while fetching)
       8 = the initial root is a dag-pb leaf holding file data itself and the history grows the file
     (0 = no signature).  It is only consulted when the specification check fails and no
-    single byte-level defect variant of the model explains the observations.
+    byte-level defect variant listed as known ([c_pref]) explains the observations.
     [c_pref]: indices of the findings currently listed as known; when the observations match
     more than one single-defect variant of the model, those are tried first. *)
 Record case := { c_init : list Z; c_ops : list op; c_obs : list ob; c_hint : N; c_pref : list N }.
@@ -389,7 +389,9 @@ Definition check_case (c : case) : verdict :=
   let model_ok := obs_match (c_ops c) (snd (run fl_off (init (c_init c)) (c_ops c))) (c_obs c) in
   if spec_ok then verdict_of model_ok true
   else
-    match first_known c (filter (fun k => (1 <=? k) && (k <=? 6))%N (c_pref c) ++ [1; 2; 3; 4; 5; 6]%N) with
-    | VKnown k => VKnown k              (* exactly one byte-level defect explains the whole history *)
-    | v => if ((c_hint c =? 7) || (c_hint c =? 8))%N then VKnown (c_hint c) else v
+    let pref := filter (fun k => (1 <=? k) && (k <=? 6))%N (c_pref c) in
+    match first_known c pref with
+    | VKnown k => VKnown k       (* a byte-level defect listed as known explains the whole history *)
+    | _ => if ((c_hint c =? 7) || (c_hint c =? 8))%N then VKnown (c_hint c)
+           else first_known c [1; 2; 3; 4; 5; 6]%N
     end.
